@@ -1,3 +1,4 @@
+\* MUST FAIL (InvF): self-check of the model checking, not run by bin/check
 \* one device type x 3 minors (totals 0 / 100), 2 pods, requests 50 / 100 percent of 1..2 devices; complete state space
 SPECIFICATION MSpec
 CONSTANTS
@@ -8,7 +9,7 @@ CONSTANTS
   Amounts = {50, 100}
   DupCheck = TRUE
   KnownCheck = TRUE
-  ResetFree = TRUE
+  ResetFree = FALSE
   CmpOK = TRUE
 INVARIANT TypeOK
 INVARIANT InvC
